@@ -11,7 +11,7 @@ import Chewing.Driver.Dict
 `r,<key>,<text>` | `f` | `o`.  Enumerations are compared sorted by (key, text): SQL defines no order.
 -/
 namespace Chewing.Driver
-open Chewing MapSpec
+open Chewing MapSpec DictDrv
 
 def parseSqlOp (tok : String) : Option SqliteDict.Op :=
   match tok.splitOn "," with
